@@ -188,6 +188,22 @@ def indexByHandle (d : ServerDecl) (h : Nat) : Option Nat :=
   | some i => if handleByIndex d i = h then some i else none
   | none => none
 
+/-! ### access by handle -/
+
+-- src: server.hpp:server::check_handle (common to Read, Read Blob, Write Request / Command and
+-- Prepare Write): handle 0 and a handle without attribute are answered Invalid Handle (`none`),
+-- otherwise the request is served by attribute_at( index_by_handle( handle ) )
+def accessIndex (d : ServerDecl) (h : Nat) : Option Nat :=
+  if h = 0 then none else indexByHandle d h
+
+-- src: server.hpp:check_size_and_handle_range + handle_find_information_request for the range
+-- h … h (h > 0): Attribute Not Found (`none`) when first_index_by_handle( h ) is invalid or its
+-- handle lies behind h, otherwise the attribute at that index is listed
+def findInfoIndex (d : ServerDecl) (h : Nat) : Option Nat :=
+  match firstIndexByHandle d h with
+  | some i => if handleByIndex d i > h then none else some i
+  | none => none
+
 /-! ### the attribute table -/
 
 /-- what `attribute_at( index )` is, before values that depend on the index are rendered -/
